@@ -215,7 +215,11 @@ pub fn run(tier: &str, seed: u64) -> i32 {
         }
         rep.add("freshness_windows_scanned", o.rep_windows as u64);
         if let Some(r) = &o.repeat {
-            rep.violation(format!("a high-entropy value repeats within one message of an honest party ('{}'): a value that blinds a secret was reused", r["label"].as_str().unwrap_or("?")), json!({"run": o.sample, "repeat": r}));
+            if r.get("kind").is_some() {
+                rep.violation(format!("a high-entropy value of an OT message of an honest party re-appears in another of its OT messages ('{}' and '{}'): the pairwise OT instances do not use independent coins", r["first"]["label"].as_str().unwrap_or("?"), r["second"]["label"].as_str().unwrap_or("?")), json!({"run": o.sample, "repeat": r}));
+            } else {
+                rep.violation(format!("a high-entropy value repeats within one message of an honest party ('{}'): a value that blinds a secret was reused", r["label"].as_str().unwrap_or("?")), json!({"run": o.sample, "repeat": r}));
+            }
         }
         for (t, l) in &o.leaks {
             let labels = match (&l.direct, &l.pair, &l.triple) {
